@@ -53,7 +53,7 @@ pub trait Flavor: 'static {
     type U: 'static;
     type S: 'static;
     type W: 'static;
-    type Sub: 'static;
+    type Sub: Clone + 'static;
     type RG: 'static;
     type WG: 'static;
 
